@@ -218,6 +218,23 @@ class StmtMixin:
                     raise EngineError(f"assignment to {tgt.id}: {err}")
             st.store[tgt.id] = v
             return [(st, NORMAL)]
+        if isinstance(tgt, (ast.Tuple, ast.List)) and len(tgt.elts) == 2 and isinstance(tgt.elts[1], ast.Starred):
+            # head, *rest = xs  for a list value: head = xs[0] (ValueError on an empty list), rest = xs[1:]
+            v2 = self.reify(v) if isinstance(v.t, TConst) else v
+            if not isinstance(v2.t, TList) or v2.t.elem is None:
+                raise EngineError(f"starred unpacking of {v2.t!r}")
+            n = z3.Length(v2.z)
+            self.partial(st, n >= 1, "ValueError", tgt)
+            head = SV(v2.t.elem, v2.z[0])
+            rest = SV(v2.t, z3.SubSeq(v2.z, 1, n - 1))
+            st.assume(z3.Length(rest.z) == n - 1)
+            out = []
+            for s2, oc in self.assign(tgt.elts[0], head, st):
+                if oc.kind != "normal":
+                    out.append((s2, oc))
+                    continue
+                out.extend(self.assign(tgt.elts[1].value, rest, s2))
+            return out
         if isinstance(tgt, (ast.Tuple, ast.List)):
             items = self.tuple_items(v)
             if items is None:
